@@ -162,6 +162,7 @@ def module_spans(tokens, offs):
 
 
 class Prefixes(object):
+    case_timeout = None  # run_parse() owns the interval timer
     name = 'prefixes'
     describe = 'every proper prefix (every character offset) of every seed text in an LF and a CRLF layout'
 
@@ -230,6 +231,7 @@ def apply_mutation(tokens, alpha, m):
 
 
 class TokenMutations(object):
+    case_timeout = None  # run_parse() owns the interval timer
     name = 'token-mutations'
     describe = ('every single-token deletion, duplication, replacement and insertion (token alphabet of 8 / 42) at every '
                 'token position of every seed; each mutant is parsed in two layouts (one token per line with LF; '
@@ -289,6 +291,7 @@ class TokenMutations(object):
 
 
 class Noise(object):
+    case_timeout = None  # run_parse() owns the interval timer
     name = 'noise'
     describe = ('one noise character ($, double quote, NUL, e-acute, apostrophe, backslash, backtick) inserted at '
                 'every character offset of every seed (layout with CRLF, tabs, comment)')
@@ -332,6 +335,7 @@ class Noise(object):
 
 
 class Lexical(object):
+    case_timeout = None  # run_parse() owns the interval timer
     name = 'lexical'
     describe = ('2**64, 10**30 and their negations in every numeric token position; each of 25 forbidden ASN.1 words in '
                 'every identifier position; an identifier with a trailing hyphen in every identifier position; the '
